@@ -1,5 +1,13 @@
-"""C18 - annotation and k-mer counting: correspondence with coq/C18 (model + enumeration spec)."""
+"""C18 - annotation and k-mer counting: correspondence with coq/C18 (model + enumeration spec).
+
+An input is one call (kind count / pair / spacing / kmers) or a sequence of calls (kind seq) made
+one after the other in this process on SHARED argument objects: calls of a sequence that name the
+same data, form and dtype receive the very same tensor / ndarray / Series / DataFrame object.
+After every call every argument object built so far is compared with a snapshot taken at
+construction (values, dtype, index, columns)."""
+import copy
 import itertools
+import json
 from fractions import Fraction
 
 import numpy
@@ -17,56 +25,82 @@ CHECK = 'check_case'
 SHARD = 60
 RULE = ('kmers: every sequence over ACGT up to the tier length (all of length <= 6 in thorough, <= 5 plus a '
         'sample of length 6 in quick) for every k in 1..min(4, L), batched, without scores, plus the same '
-        'with dyadic scores on a sample, plus random longer sequences over alphabets 2-5 and a malformed '
-        'stream (all-zero / two-hot columns, k = 0, k > L); annotation tables: 1-200 rows, 1-8 examples, '
-        '1-10 annotation types, spans built to abut, overlap, nest, coincide, share a start and lie exactly '
-        'max_distance-1 / max_distance / max_distance+1 apart, rows shuffled, as tensor / tuple of tensors, '
-        'ndarrays, Series / DataFrame, explicit shapes (fitting and too small), dim None/0/1, symmetric '
-        'and not, several result dtypes (uint8 only where no count can exceed 255); a malformed stream '
-        '(negative entries, empty spans). non-trivial = count table with a repeated (example, annotation) '
-        'row; pairwise table with two rows in one example; spacing table with a same-example pair whose gap '
-        'd satisfies d <= 0 or d >= max_distance-1; k-mer call where some k-mer occurs twice in a sequence')
+        'with dyadic scores on a sample, plus random longer sequences over alphabets 1-6 (X as float32/'
+        'float64/float16/int8/uint8/int32/int64/bool, contiguous or a permuted view, scores as float32/'
+        'float64/float16/int64, k as int or numpy integer, empty batch) and a malformed stream (all-zero / '
+        'two-hot columns, k = 0, k > L); annotation tables: 1-200 rows, 1-8 examples, 1-10 annotation types, '
+        'spans built to abut, overlap, nest, coincide, share a start or end and lie exactly max_distance-1 / '
+        'max_distance / max_distance+1 apart, optionally shifted by 1e5-1e6, rows shuffled; table dtypes '
+        'int64/int32/int16/int8/uint8; forms: (n,k) tensor, tuple/list of tensors, ndarrays, Series (default '
+        'and shuffled index), mixed, a [:, :2] view of a 4-column tensor, 4-column DataFrame (default index / '
+        'arbitrary index and per-column dtypes), (BED frame, vector), (ndarray (n,3), ndarray), (tensor (n,3), '
+        'tensor (n,1)), four separate vectors (tensors / ndarrays / mixed dtypes); explicit shapes equal, '
+        'larger (per axis) and too small, as tuple / list / torch.Size / numpy integers; dim None/0/1 (int or '
+        'numpy integer); max_distance 0, 1, small, default (argument omitted), 128, 255, 256, 300 on small-'
+        'dtype tables; symmetric and not; result dtype default/uint8/int16/int32/int64/float32/float64 '
+        '(uint8 only where no count can exceed 255); call sequences on shared objects with one parameter '
+        'changed per step (dim, shape, dtype, symmetric, max_distance, k, scores, alphabet); a malformed '
+        'stream (negative entries, empty spans, empty table). non-trivial = count table with a repeated '
+        '(example, annotation) row; pairwise table with two rows in one example; spacing table with a '
+        'same-example pair whose gap d satisfies d <= 0 or d >= max_distance-1; k-mer call where some k-mer '
+        'occurs twice in a sequence; a sequence with a non-trivial step')
 EXHAUSTIVE = {'quick': False, 'thorough': True}
 TRUSTED = ['conversion of returned tensors to nested integer lists (tolist) and of float32 score sums to exact '
-           'fractions (scores are dyadic, so float32 accumulation is exact: tolerance 0)']
+           'fractions (scores are dyadic, so float32 accumulation is exact: tolerance 0)',
+           'bitwise comparison of every argument object with its snapshot after every call']
 ASSUMPTIONS = ['counts stay within the result dtype (the property\'s side condition; the generator keeps them so)',
                'torch.scatter_add_, conv1d on int32/float32 and numpy integer indexing behave as modelled '
                '(exercised by every case)']
 
 
 # ----------------------------------------------------------------------------------------
-# running the implementation
+# argument objects
 
-DTYPES = {'uint8': torch.uint8, 'int16': torch.int16, 'int32': torch.int32, 'int64': torch.int64}
+DTYPES = {'uint8': torch.uint8, 'int16': torch.int16, 'int32': torch.int32, 'int64': torch.int64,
+          'float32': torch.float32, 'float64': torch.float64}
+DEFAULT_MAXD = 100
 
 
-def _vec(kind, xs, xdtype):
+def _vec(kind, xs, xdtype, rng_index=None):
     if kind == 'tensor':
         return torch.tensor(xs, dtype=getattr(torch, xdtype))
     if kind == 'numpy':
         return numpy.array(xs, dtype=xdtype)
-    return pandas.Series(numpy.array(xs, dtype=xdtype))
+    s = pandas.Series(numpy.array(xs, dtype=xdtype))
+    if kind == 'series_index':      # a column of a filtered / re-sorted frame: arbitrary index
+        s.index = [(7 * i + 3) % (len(xs) + 5) + 10 for i in range(len(xs))]
+    return s
 
 
-def table_arg(inp):
-    rows = inp['rows']
-    form = inp['form']
-    xd = inp.get('xdtype', 'int64')
-    ncol = 4 if inp['kind'] == 'spacing' else 2
+ALT = {'int64': 'int32', 'int32': 'int64', 'int16': 'int64', 'int8': 'int16', 'uint8': 'int16'}
+
+
+def build_table(call):
+    """the object passed as X"""
+    rows = call['rows']
+    form = call['form']
+    xd = call.get('xdtype', 'int64')
+    ncol = 4 if call['kind'] == 'spacing' else 2
     if form == 'tensor':
         return torch.tensor(rows, dtype=getattr(torch, xd)).reshape(-1, ncol)
-    if inp['kind'] != 'spacing':
+    if call['kind'] != 'spacing':
         kinds = {'tuple_tensor': ('tensor', 'tensor'), 'tuple_numpy': ('numpy', 'numpy'),
                  'tuple_series': ('series', 'series'), 'tuple_mixed': ('series', 'tensor'),
-                 'list_mixed': ('numpy', 'tensor')}[form]
-        cols = [_vec(kinds[j], [r[j] for r in rows], xd) for j in range(2)]
+                 'list_mixed': ('numpy', 'tensor'), 'tuple_series_index': ('series_index', 'series_index'),
+                 'tuple_mixed_dtypes': ('tensor', 'numpy')}[form]
+        dts = (xd, ALT[xd]) if form == 'tuple_mixed_dtypes' else (xd, xd)
+        cols = [_vec(kinds[j], [r[j] for r in rows], dts[j]) for j in range(2)]
         return list(cols) if form.startswith('list') else tuple(cols)
+    arr = numpy.array(rows, dtype=xd).reshape(-1, 4)
     if form == 'df':
-        return pandas.DataFrame(numpy.array(rows, dtype=xd).reshape(-1, 4),
-                                columns=['example_idx', 'motif_idx', 'start', 'end'])
-    # (BED-like frame with example, start, end ; vector of annotation ids)
-    bed = pandas.DataFrame(numpy.array([[r[0], r[2], r[3]] for r in rows], dtype=xd).reshape(-1, 3),
-                           columns=['example_idx', 'start', 'end'])
+        return pandas.DataFrame(arr, columns=['example_idx', 'motif_idx', 'start', 'end'])
+    if form == 'df_index':     # what filtering / sorting a larger frame leaves: arbitrary index, per-column dtypes
+        df = pandas.DataFrame({'example_idx': arr[:, 0].astype(ALT[xd]), 'motif_idx': arr[:, 1],
+                               'start': arr[:, 2].astype('int64'), 'end': arr[:, 3]})
+        df.index = [(5 * i + 2) % (len(rows) + 3) + 100 for i in range(len(rows))]
+        return df
+    bed_arr = numpy.array([[r[0], r[2], r[3]] for r in rows], dtype=xd).reshape(-1, 3)
+    bed = pandas.DataFrame(bed_arr, columns=['example_idx', 'start', 'end'])
     ann = [r[1] for r in rows]
     if form == 'tuple_df_tensor':
         return (bed, torch.tensor(ann, dtype=getattr(torch, xd)))
@@ -74,21 +108,35 @@ def table_arg(inp):
         return (bed, numpy.array(ann, dtype=xd))
     if form == 'list_df_tensor2d':
         return [bed, torch.tensor(ann, dtype=getattr(torch, xd)).unsqueeze(1)]
+    if form == 'tuple_nd3_nd1':
+        return (bed_arr.copy(), numpy.array(ann, dtype=ALT[xd]))
+    if form == 'tuple_t3_t1':
+        return (torch.tensor(bed_arr), torch.tensor(ann, dtype=getattr(torch, xd)).unsqueeze(1))
+    cols = [[r[0] for r in rows], [r[2] for r in rows], [r[3] for r in rows], ann]   # ex, start, end, ann
+    if form == 'tuple_4vec_tensor':
+        return tuple(torch.tensor(c, dtype=getattr(torch, xd)) for c in cols)
+    if form == 'tuple_4vec_numpy':
+        return tuple(numpy.array(c, dtype=xd) for c in cols)
+    if form == 'list_4vec_mixed':
+        return [torch.tensor(cols[0], dtype=getattr(torch, ALT[xd])), numpy.array(cols[1], dtype='int64'),
+                torch.tensor(cols[2], dtype=getattr(torch, xd)), numpy.array(cols[3], dtype=xd)]
     raise KeyError(form)
 
 
-def ohe(n, seqs):
+def ohe(n, seqs, xdt='float32', layout='contig', L0=0):
     """seqs: lists of letter codes (k >= 0 one-hot at k; -1 all-zero column; -2 two ones)."""
-    B, L = len(seqs), len(seqs[0]) if seqs else 0
-    X = torch.zeros(B, n, L, dtype=torch.float32)
+    B, L = len(seqs), len(seqs[0]) if seqs else L0
+    X = torch.zeros(B, L, n, dtype=torch.float32)
     for b, s in enumerate(seqs):
         for p, c in enumerate(s):
             if c >= 0:
-                X[b, c, p] = 1
+                X[b, p, c] = 1
             elif c == -2:
-                X[b, 0, p] = 1
-                X[b, n - 1, p] = X[b, n - 1, p] + 1
-    return X
+                X[b, p, 0] = 1
+                X[b, p, n - 1] = X[b, p, n - 1] + 1
+    X = X.type(getattr(torch, xdt))
+    X = X.permute(0, 2, 1)                 # (B, n, L), a non-contiguous view
+    return X if layout == 'permuted' else X.contiguous()
 
 
 def columns(n, s):
@@ -108,32 +156,98 @@ def frac(x):
     return Fraction(x[0], x[1])
 
 
-def run_impl(inp):
+def snapshot(o):
+    return copy.deepcopy(o)
+
+
+def same(a, b):
+    if isinstance(a, (tuple, list)):
+        return type(a) is type(b) and len(a) == len(b) and all(same(x, y) for x, y in zip(a, b))
+    if isinstance(a, torch.Tensor):
+        return a.dtype == b.dtype and a.shape == b.shape and a.stride() == b.stride() and bool(torch.equal(a, b))
+    if isinstance(a, numpy.ndarray):
+        return a.dtype == b.dtype and a.shape == b.shape and bool(numpy.array_equal(a, b))
+    if isinstance(a, pandas.Series):
+        return a.dtype == b.dtype and a.index.equals(b.index) and bool(a.equals(b))
+    if isinstance(a, pandas.DataFrame):
+        return (list(a.columns) == list(b.columns) and a.index.equals(b.index)
+                and list(a.dtypes) == list(b.dtypes) and bool(a.equals(b)))
+    return a == b
+
+
+class Objects:
+    """argument objects of one sequence, shared between its calls"""
+
+    def __init__(self):
+        self.objs = {}
+
+    def get(self, key, make):
+        k = json.dumps(key, sort_keys=True)
+        if k not in self.objs:
+            o = make()
+            self.objs[k] = (o, snapshot(o))
+        return self.objs[k][0]
+
+    def unchanged(self):
+        return all(same(o, s) for o, s in self.objs.values())
+
+
+def pint(call, v):
+    """an integer parameter as the caller's integer type"""
+    if v is None:
+        return None
+    return numpy.int64(v) if call.get('ptype', 'py') == 'numpy' else int(v)
+
+
+def table_for(call, objs):
+    if call['form'] == 'view4':       # the first two columns of a shared 4-column tensor
+        xd = call.get('xdtype', 'int64')
+        X4 = objs.get(['table', 4, call['rows4'], 'tensor', xd],
+                      lambda: torch.tensor(call['rows4'], dtype=getattr(torch, xd)).reshape(-1, 4))
+        return X4[:, :2]
+    ncol = 4 if call['kind'] == 'spacing' else 2
+    return objs.get(['table', ncol, call['rows'], call['form'], call.get('xdtype', 'int64')],
+                    lambda: build_table(call))
+
+
+def run_call(call, objs):
     from tangermeme import annotate, kmers as kmod
-    kind = inp['kind']
+    kind = call['kind']
     try:
         kw = {}
-        if kind != 'kmers' and inp.get('dtype', 'default') != 'default':
-            kw['dtype'] = DTYPES[inp['dtype']]
+        if kind != 'kmers' and call.get('dtype', 'default') != 'default':
+            kw['dtype'] = DTYPES[call['dtype']]
         if kind == 'count':
-            shape = None if inp['shape'] is None else tuple(inp['shape'])
-            y = annotate.count_annotations(table_arg(inp), shape=shape, dim=inp['dim'], **kw)
+            shape = call['shape']
+            if shape is not None:
+                shape = [pint(call, v) for v in shape]
+                sf = call.get('shape_form', 'tuple')
+                shape = tuple(shape) if sf == 'tuple' else (torch.Size(shape) if sf == 'size' else shape)
+            y = annotate.count_annotations(table_for(call, objs), shape=shape, dim=pint(call, call['dim']), **kw)
         elif kind == 'pair':
-            y = annotate.pairwise_annotations(table_arg(inp), symmetric=inp['sym'], shape=inp['shape'], **kw)
+            y = annotate.pairwise_annotations(table_for(call, objs), symmetric=call['sym'],
+                                              shape=pint(call, call['shape']), **kw)
         elif kind == 'spacing':
-            y = annotate.pairwise_annotations_spacing(table_arg(inp), max_distance=inp['maxd'],
-                                                      symmetric=inp['sym'], shape=inp['shape'], **kw)
+            if call['maxd'] is not None:
+                kw['max_distance'] = pint(call, call['maxd'])
+            y = annotate.pairwise_annotations_spacing(table_for(call, objs), symmetric=call['sym'],
+                                                      shape=pint(call, call['shape']), **kw)
         elif kind == 'kmers':
-            X = ohe(inp['n'], inp['seqs'])
+            xdt, layout = call.get('xdt', 'float32'), call.get('layout', 'contig')
+            X = objs.get(['ohe', call['n'], call['seqs'], xdt, layout],
+                         lambda: ohe(call['n'], call['seqs'], xdt, layout, call.get('L', 0)))
             sc = None
-            if inp['scores'] is not None:
-                sc = torch.tensor([[float(frac(v)) for v in row] for row in inp['scores']],
-                                  dtype=torch.float32).reshape(len(inp['scores']), -1)
-            y = kmod.kmers(X, inp['k'], scores=sc)
+            if call['scores'] is not None:
+                sdt = call.get('sdt', 'float32')
+                sc = objs.get(['scores', call['scores'], sdt],
+                              lambda: torch.tensor([[float(frac(v)) for v in row] for row in call['scores']],
+                                                   dtype=torch.float64).reshape(len(call['scores']), -1)
+                              .type(getattr(torch, sdt)))
+            y = kmod.kmers(X, pint(call, call['k']), scores=sc)
         else:
             raise KeyError(kind)
         y = y.detach().cpu()
-        if kind == 'kmers' and inp['scores'] is not None:
+        if kind == 'kmers' and call['scores'] is not None:
             val = [[[Fraction(v).numerator, Fraction(v).denominator] for v in row]
                    for row in y.to(torch.float64).tolist()]
             return {'ok': True, 'rank': 'Q', 'val': val}
@@ -141,9 +255,25 @@ def run_impl(inp):
             if not torch.equal(y, y.round()):
                 return {'ok': True, 'rank': 'nonintegral', 'val': None}
             y = y.to(torch.int64)
+        if kind == 'kmers' and y.dim() == 2 and y.shape[0] == 0:
+            return {'ok': True, 'rank': 2, 'val': []}
         return {'ok': True, 'rank': y.dim(), 'val': y.to(torch.int64).tolist()}
     except Exception as e:
         return {'ok': False, 'err': type(e).__name__}
+
+
+def calls_of(inp):
+    return inp['calls'] if inp['kind'] == 'seq' else [inp]
+
+
+def run_impl(inp):
+    objs = Objects()
+    steps = []
+    for call in calls_of(inp):
+        out = run_call(call, objs)
+        out['unchanged'] = objs.unchanged()
+        steps.append(out)
+    return {'ok': all(s['ok'] for s in steps), 'steps': steps}
 
 
 # ----------------------------------------------------------------------------------------
@@ -162,26 +292,31 @@ def row4(r):
     return '(%s, (%s, %s, %s))' % (C.z(r[0]), C.z(r[1]), C.z(r[2]), C.z(r[3]))
 
 
-def call_lit(inp):
-    kind = inp['kind']
+def rows_of(call):
+    return [r[:2] for r in call['rows4']] if call.get('form') == 'view4' else call['rows']
+
+
+def call_lit(call):
+    kind = call['kind']
     if kind == 'count':
-        dim = {None: 'DNone', 0: 'D0', 1: 'D1'}[inp['dim']]
-        return '(CCount %s %s %s)' % (C.lst([pair2(r) for r in inp['rows']]),
-                                      C.opt(inp['shape'], pair2), dim)
+        dim = {None: 'DNone', 0: 'D0', 1: 'D1'}[call['dim']]
+        return '(CCount %s %s %s)' % (C.lst([pair2(r) for r in rows_of(call)]),
+                                      C.opt(call['shape'], pair2), dim)
     if kind == 'pair':
-        return '(CPair %s %s %s)' % (C.lst([pair2(r) for r in inp['rows']]), C.boolean(inp['sym']),
-                                     C.opt(inp['shape']))
+        return '(CPair %s %s %s)' % (C.lst([pair2(r) for r in rows_of(call)]), C.boolean(call['sym']),
+                                     C.opt(call['shape']))
     if kind == 'spacing':
-        return '(CSpacing %s %s %s %s)' % (C.lst([row4(r) for r in inp['rows']]), C.z(inp['maxd']),
-                                           C.boolean(inp['sym']), C.opt(inp['shape']))
-    n = inp['n']
-    L = len(inp['seqs'][0]) if inp['seqs'] else 0
-    X = C.lst([C.lst([C.zlist(c) for c in columns(n, s)]) for s in inp['seqs']])
-    if inp['scores'] is None:
+        maxd = DEFAULT_MAXD if call['maxd'] is None else call['maxd']
+        return '(CSpacing %s %s %s %s)' % (C.lst([row4(r) for r in call['rows']]), C.z(maxd),
+                                           C.boolean(call['sym']), C.opt(call['shape']))
+    n = call['n']
+    L = len(call['seqs'][0]) if call['seqs'] else call.get('L', 0)
+    X = C.lst([C.lst([C.zlist(c) for c in columns(n, s)]) for s in call['seqs']])
+    if call['scores'] is None:
         sc = 'None'
     else:
-        sc = '(Some %s)' % C.lst([C.lst([qc(frac(v)) for v in row]) for row in inp['scores']])
-    return '(CKmers %s %s %s %s %s)' % (C.nat(n), C.nat(L), X, C.nat(inp['k']), sc)
+        sc = '(Some %s)' % C.lst([C.lst([qc(frac(v)) for v in row]) for row in call['scores']])
+    return '(CKmers %s %s %s %s %s)' % (C.nat(n), C.nat(L), X, C.nat(call['k']), sc)
 
 
 def out_lit(out):
@@ -200,16 +335,17 @@ def out_lit(out):
 
 
 def coq_case(inp, out):
-    return '(%s, %s)' % (call_lit(inp), out_lit(out))
+    return C.lst(['(%s, %s, %s)' % (call_lit(c), out_lit(o), C.boolean(o['unchanged']))
+                  for c, o in zip(calls_of(inp), out['steps'])])
 
 
 # ----------------------------------------------------------------------------------------
 # evidence helpers
 
-def _gaps(inp):
+def _gaps(call):
     """gaps d of the same-example pairs (left = smaller start), for the non-triviality rule only"""
     by = {}
-    for r in inp['rows']:
+    for r in call['rows']:
         by.setdefault(r[0], []).append(r)
     for rs in by.values():
         for i in range(len(rs)):
@@ -218,29 +354,38 @@ def _gaps(inp):
                 yield b[2] - a[3]
 
 
-def nontrivial(inp, out):
-    kind = inp['kind']
+def nontrivial_call(call):
+    kind = call['kind']
     if kind == 'count':
-        keys = [tuple(r) for r in inp['rows']]
+        keys = [tuple(r) for r in rows_of(call)]
         return len(set(keys)) < len(keys)
     if kind == 'pair':
-        ex = [r[0] for r in inp['rows']]
+        ex = [r[0] for r in rows_of(call)]
         return len(set(ex)) < len(ex)
     if kind == 'spacing':
-        return any(d <= 0 or d >= inp['maxd'] - 1 for d in _gaps(inp))
-    k = inp['k']
-    for s in inp['seqs']:
+        maxd = DEFAULT_MAXD if call['maxd'] is None else call['maxd']
+        return any(d <= 0 or d >= maxd - 1 for d in _gaps(call))
+    k = call['k']
+    for s in call['seqs']:
         ws = [tuple(s[p:p + k]) for p in range(len(s) - k + 1)] if k >= 1 else []
         if len(set(ws)) < len(ws):
             return True
     return False
 
 
+def nontrivial(inp, out):
+    return any(nontrivial_call(c) for c in calls_of(inp))
+
+
 def hist_key(inp, out):
     kind = inp['kind']
+    ok = 'ok' if out['ok'] else 'raise'
+    if kind == 'seq':
+        return 'seq/%s/%d/%s' % ('+'.join(sorted(set(c['kind'] for c in inp['calls']))), len(inp['calls']), ok)
     if kind == 'kmers':
-        return 'kmers/%s/%s' % ('scores' if inp['scores'] is not None else 'counts', 'ok' if out['ok'] else 'raise')
-    return '%s/%s/%s' % (kind, inp['form'], 'ok' if out['ok'] else 'raise')
+        return 'kmers/%s/%s/%s/%s' % ('scores-' + inp.get('sdt', 'float32') if inp['scores'] is not None else 'counts',
+                                      inp.get('xdt', 'float32'), inp.get('layout', 'contig'), ok)
+    return '%s/%s/%s/%s' % (kind, inp['form'], inp.get('xdtype', 'int64'), ok)
 
 
 def tags(inp, out):
@@ -248,10 +393,16 @@ def tags(inp, out):
 
 
 # ----------------------------------------------------------------------------------------
-# generators
+# generators: k-mers
 
-def rand_scores(rng, B, L):
+def rand_scores(rng, B, L, integer=False):
+    if integer:
+        return [[[rng.randint(-8, 8), 1] for _ in range(L)] for _ in range(B)]
     return [[[rng.randint(-32, 32), 4] for _ in range(L)] for _ in range(B)]
+
+
+XDTS = ['float32', 'float32', 'float32', 'float64', 'float16', 'int8', 'uint8', 'int32', 'int64', 'bool']
+SDTS = ['float32', 'float32', 'float64', 'float16', 'int64']
 
 
 def gen_kmers(tier, rng):
@@ -272,16 +423,28 @@ def gen_kmers(tier, rng):
             for i in range(0, m, 8):
                 part = sample[i:i + 8]
                 yield {'kind': 'kmers', 'n': n, 'seqs': part, 'k': k, 'scores': rand_scores(rng, len(part), L)}
-    # random longer sequences, other alphabets
-    for _ in range(60 if quick else 600):
-        n = rng.choice([2, 3, 4, 4, 4, 5])
+    # random longer sequences, other alphabets, dtypes, layouts, integer types
+    for _ in range(90 if quick else 900):
+        n = rng.choice([1, 2, 3, 4, 4, 4, 5, 6])
         L = rng.choice([7, 8, 10, 13, 20, 35, 60])
         k = rng.choice([1, 2, 3, 4]) if n <= 4 else rng.choice([1, 2, 3])
         B = rng.randint(1, 4)
         low = rng.random() < 0.4     # low-complexity: many repeated k-mers
-        seqs = [[rng.randrange(2 if low else n) for _ in range(L)] for _ in range(B)]
-        sc = rand_scores(rng, B, L) if rng.random() < 0.4 else None
-        yield {'kind': 'kmers', 'n': n, 'seqs': seqs, 'k': k, 'scores': sc}
+        seqs = [[rng.randrange(min(2, n) if low else n) for _ in range(L)] for _ in range(B)]
+        sdt = rng.choice(SDTS)
+        sc = rand_scores(rng, B, L, integer=(sdt == 'int64')) if rng.random() < 0.45 else None
+        yield {'kind': 'kmers', 'n': n, 'seqs': seqs, 'k': k, 'scores': sc, 'xdt': rng.choice(XDTS),
+               'layout': rng.choice(['contig', 'permuted']), 'sdt': sdt,
+               'ptype': rng.choice(['py', 'py', 'numpy'])}
+    # boundary: k = L, k = 1, L = 1, a batch of equal sequences, an empty batch
+    for n in (1, 2, 4):
+        for L in (1, 2, 5):
+            seqs = [[(p * p + b) % n for p in range(L)] for b in range(3)]
+            for k in sorted(set([1, L])):
+                yield {'kind': 'kmers', 'n': n, 'seqs': seqs, 'k': k, 'scores': None, 'xdt': 'float32'}
+                yield {'kind': 'kmers', 'n': n, 'seqs': seqs, 'k': k, 'scores': rand_scores(rng, 3, L),
+                       'layout': 'permuted'}
+    yield {'kind': 'kmers', 'n': 4, 'seqs': [], 'L': 5, 'k': 2, 'scores': None}
     # malformed / out-of-scope stream
     for _ in range(20 if quick else 100):
         n = rng.choice([2, 3, 4])
@@ -300,6 +463,9 @@ def gen_kmers(tier, rng):
             k = L + rng.randint(1, 2)
         yield {'kind': 'kmers', 'n': n, 'seqs': seqs, 'k': k, 'scores': None}
 
+
+# ----------------------------------------------------------------------------------------
+# generators: tables
 
 def gen_spans(rng, n_rows, maxd, span=40):
     """start/end pairs with the relations the property names"""
@@ -354,66 +520,105 @@ def table_shape(rng):
     r = rng.random()
     if r < 0.55:
         return rng.randint(1, 12), rng.randint(1, 3), rng.randint(1, 4)
-    if r < 0.9:
+    if r < 0.92:
         return rng.randint(10, 60), rng.randint(1, 8), rng.randint(1, 10)
     return rng.randint(100, 200), rng.randint(1, 8), rng.randint(1, 10)
 
 
+def pick_xdtype(rng, maxval):
+    c = ['int64', 'int64', 'int32']
+    if maxval <= 32767:
+        c.append('int16')
+    if maxval <= 255:
+        c += ['uint8', 'uint8']
+    if maxval <= 127:
+        c += ['int8', 'int8']
+    return rng.choice(c)
+
+
+def pick_shape1(rng, need):
+    r = rng.random()
+    return None if r < 0.5 else (need + rng.randint(0, 3) if r < 0.9 else max(0, need - 1))
+
+
+FORMS2 = ['tensor', 'tensor', 'tuple_tensor', 'tuple_numpy', 'tuple_series', 'tuple_mixed', 'list_mixed',
+          'tuple_series_index', 'tuple_mixed_dtypes']
+FORMS4 = ['tensor', 'tensor', 'df', 'df_index', 'tuple_df_tensor', 'tuple_df_numpy', 'list_df_tensor2d',
+          'tuple_nd3_nd1', 'tuple_t3_t1', 'tuple_4vec_tensor', 'tuple_4vec_numpy', 'list_4vec_mixed']
+
+
+def rand_count(rng, ex, an):
+    N = len(ex)
+    rows = [[ex[i], an[i]] for i in range(N)]
+    needE, needA = max(ex) + 1, max(an) + 1
+    shape = None
+    r = rng.random()
+    if r < 0.4:        # equal or larger, each axis on its own
+        shape = [needE + rng.choice([0, 0, 1, 3]), needA + rng.choice([0, 0, 1, 2, 5])]
+    elif r < 0.5:      # too small in one axis
+        shape = [max(0, needE + rng.choice([-1, 0, 1])), max(0, needA + rng.choice([-1, 0]))]
+    return {'kind': 'count', 'rows': rows, 'shape': shape, 'dim': rng.choice([None, None, 0, 1]),
+            'form': rng.choice(FORMS2), 'shape_form': rng.choice(['tuple', 'tuple', 'list', 'size']),
+            'dtype': rng.choice(['default', 'uint8', 'int16', 'int32', 'int64', 'float32', 'float64']),
+            'xdtype': pick_xdtype(rng, max(ex + an)), 'ptype': rng.choice(['py', 'py', 'numpy'])}
+
+
+def rand_pair(rng, ex, an):
+    N = len(ex)
+    return {'kind': 'pair', 'rows': [[ex[i], an[i]] for i in range(N)], 'sym': rng.random() < 0.85,
+            'shape': pick_shape1(rng, max(an) + 1), 'form': rng.choice(FORMS2),
+            'dtype': rng.choice(['int64', 'float64']) if N > 22 else
+            rng.choice(['default', 'uint8', 'int16', 'int32', 'float32']),
+            'xdtype': pick_xdtype(rng, max(ex + an)), 'ptype': rng.choice(['py', 'py', 'numpy'])}
+
+
+def rand_spacing(rng, ex, an, nA):
+    N = len(ex)
+    # the spec enumerates pairs x cells: keep big tables on few cells
+    if N > 60:
+        nA = min(nA, 4)
+        an = [rng.randrange(nA) for _ in range(N)]
+    lay = rng.choice([1, 2, 3, 5, 8, 12]) if N <= 60 else rng.choice([1, 2, 3, 5])
+    maxd = lay
+    r = rng.random()
+    if N <= 12 and nA <= 3 and r < 0.3:
+        # a distance axis wider than the layout: the default, and values around the range of small dtypes
+        maxd = rng.choice([None, None, 100, 127, 128, 200, 255, 256, 300])
+    elif r < 0.34:
+        maxd = rng.choice([0, 1])
+    by = {}
+    for i in range(N):
+        by.setdefault(ex[i], []).append(i)
+    rows = [None] * N
+    shift = rng.choice([100000, 999990, 16777216]) if rng.random() < 0.08 else 0
+    for e, idxs in by.items():
+        sp = gen_spans(rng, len(idxs), lay)
+        rng.shuffle(sp)
+        for i, (s, en) in zip(idxs, sp):
+            rows[i] = [e, an[i], s + shift, en + shift]
+    return {'kind': 'spacing', 'rows': rows, 'maxd': maxd, 'sym': rng.random() < 0.85,
+            'shape': pick_shape1(rng, max(an) + 1), 'form': rng.choice(FORMS4),
+            'dtype': rng.choice(['int64', 'float32']) if N > 22 else
+            rng.choice(['default', 'uint8', 'int16', 'int32', 'int64']),
+            'xdtype': pick_xdtype(rng, max(max(r) for r in rows)), 'ptype': rng.choice(['py', 'py', 'numpy'])}
+
+
+def rand_table(rng, kind=None, small=False):
+    kind = kind or rng.choice(['count', 'pair', 'spacing', 'spacing'])
+    N, nE, nA = (rng.randint(1, 8), rng.randint(1, 3), rng.randint(1, 3)) if small else table_shape(rng)
+    ex = [rng.randrange(nE) for _ in range(N)]
+    an = [rng.randrange(nA) for _ in range(N)]
+    if kind == 'count':
+        return rand_count(rng, ex, an)
+    if kind == 'pair':
+        return rand_pair(rng, ex, an)
+    return rand_spacing(rng, ex, an, nA)
+
+
 def gen_tables(tier, rng):
     quick = tier != 'thorough'
-    for _ in range(500 if quick else 5000):
-        kind = rng.choice(['count', 'pair', 'spacing', 'spacing'])
-        N, nE, nA = table_shape(rng)
-        ex = [rng.randrange(nE) for _ in range(N)]
-        an = [rng.randrange(nA) for _ in range(N)]
-        xd = rng.choice(['int64', 'int64', 'int32'])
-        if kind == 'count':
-            rows = [[ex[i], an[i]] for i in range(N)]
-            needE, needA = max(ex) + 1, max(an) + 1
-            shape = None
-            r = rng.random()
-            if r < 0.35:
-                shape = [needE + rng.randint(0, 2), needA + rng.randint(0, 2)]
-            elif r < 0.45:
-                shape = [max(0, needE + rng.choice([-1, 0, 1])), max(0, needA + rng.choice([-1, 0]))]
-            yield {'kind': 'count', 'rows': rows, 'shape': shape, 'dim': rng.choice([None, None, 0, 1]),
-                   'form': rng.choice(['tensor', 'tensor', 'tuple_tensor', 'tuple_numpy', 'tuple_series',
-                                       'tuple_mixed', 'list_mixed']),
-                   'dtype': rng.choice(['default', 'uint8', 'int32', 'int64']), 'xdtype': xd}
-            continue
-        sym = rng.random() < 0.85
-        if kind == 'pair':
-            rows = [[ex[i], an[i]] for i in range(N)]
-            need = max(an) + 1
-            r = rng.random()
-            shape = None if r < 0.6 else (need + rng.randint(0, 2) if r < 0.9 else max(0, need - 1))
-            yield {'kind': 'pair', 'rows': rows, 'sym': sym, 'shape': shape,
-                   'form': rng.choice(['tensor', 'tensor', 'tuple_tensor', 'tuple_numpy', 'tuple_series',
-                                       'tuple_mixed']),
-                   'dtype': 'int64' if N > 22 else rng.choice(['default', 'uint8', 'int32']), 'xdtype': xd}
-            continue
-        # the spec enumerates pairs x cells: keep big tables on few cells
-        if N > 60:
-            nA = min(nA, 4)
-            an = [rng.randrange(nA) for _ in range(N)]
-        maxd = rng.choice([1, 2, 3, 5, 8, 12]) if N <= 60 else rng.choice([1, 2, 3, 5])
-        by = {}
-        for i in range(N):
-            by.setdefault(ex[i], []).append(i)
-        rows = [None] * N
-        for e, idxs in by.items():
-            sp = gen_spans(rng, len(idxs), maxd)
-            rng.shuffle(sp)
-            for i, (s, en) in zip(idxs, sp):
-                rows[i] = [e, an[i], s, en]
-        need = max(an) + 1
-        r = rng.random()
-        shape = None if r < 0.6 else (need + rng.randint(0, 2) if r < 0.9 else max(0, need - 1))
-        yield {'kind': 'spacing', 'rows': rows, 'maxd': maxd, 'sym': sym, 'shape': shape,
-               'form': rng.choice(['tensor', 'tensor', 'df', 'tuple_df_tensor', 'tuple_df_numpy',
-                                   'list_df_tensor2d']),
-               'dtype': 'int64' if N > 22 else rng.choice(['default', 'uint8', 'int32', 'int64']),
-               'xdtype': xd}
+    for _ in range(520 if quick else 5000):
+        yield rand_table(rng)
     # malformed / out-of-scope stream
     for _ in range(30 if quick else 200):
         kind = rng.choice(['count', 'pair', 'spacing'])
@@ -450,17 +655,9 @@ def gen_tables(tier, rng):
                        'dtype': 'int64', 'xdtype': 'int64'}
 
 
-def generate(tier, rng):
-    for inp in boundary_tables():
-        yield inp
-    for inp in gen_tables(tier, rng):
-        yield inp
-    for inp in gen_kmers(tier, rng):
-        yield inp
-
-
 def boundary_tables():
-    """every relation of two spans around max_distance, both row orders, both symmetric settings"""
+    """every relation of two spans around max_distance, both row orders, both symmetric settings; then the
+    same pairs in every table dtype against distance axes around the dtype ranges (and the default)"""
     for maxd in (1, 3):
         for d in (-4, -2, -1, 0, 1, maxd - 1, maxd, maxd + 1, maxd + 5):
             for a, b in ((0, 1), (1, 0), (1, 1)):
@@ -473,6 +670,97 @@ def boundary_tables():
                     for sym in (True, False):
                         yield {'kind': 'spacing', 'rows': [list(r) for r in rows], 'maxd': maxd, 'sym': sym,
                                'shape': None, 'form': 'tensor', 'dtype': 'int64', 'xdtype': 'int64'}
+    k = 0
+    for xd in ('uint8', 'int8', 'int16', 'int64'):
+        for maxd in (None, 99, 100, 101, 127, 128, 129, 254, 255, 256, 257, 300):
+            for gap in (-3, 0, 50, 99, 100):
+                # left span [2, 6), right span starts gap after it; coordinates stay below 128
+                rows = [[0, 0, 2, 6], [0, 1, 6 + gap, 9 + gap]]
+                if k % 2:
+                    rows.reverse()
+                form = FORMS4[k % len(FORMS4)]
+                k += 1
+                yield {'kind': 'spacing', 'rows': rows, 'maxd': maxd, 'sym': True, 'shape': None,
+                       'form': form, 'dtype': 'int64', 'xdtype': xd, 'ptype': 'numpy' if k % 3 == 0 else 'py'}
+
+
+# ----------------------------------------------------------------------------------------
+# generators: call sequences on shared objects (one thing changed per step)
+
+def vary(call, **kw):
+    c = dict(call)
+    c.update(kw)
+    return c
+
+
+def gen_seqs(tier, rng):
+    quick = tier != 'thorough'
+    for _ in range(40 if quick else 300):
+        which = rng.choice(['count', 'pair', 'spacing', 'cross', 'kmers_k', 'kmers_scores', 'kmers_alpha'])
+        if which == 'count':
+            c = rand_table(rng, 'count', small=True)
+            needE = max(r[0] for r in c['rows']) + 1
+            needA = max(r[1] for r in c['rows']) + 1
+            c['shape'] = None
+            big = [needE + rng.randint(0, 2), needA + rng.randint(1, 3)]
+            calls = [vary(c, dim=None), vary(c, dim=0), vary(c, dim=1), vary(c, dim=None, shape=big),
+                     vary(c, dim=0, shape=big), vary(c, dim=None), vary(c, dim=None, dtype='int64'),
+                     vary(c, dim=1, shape=big, ptype='numpy')]
+        elif which == 'pair':
+            c = rand_table(rng, 'pair', small=True)
+            need = max(r[1] for r in c['rows']) + 1
+            c['shape'] = None
+            calls = [vary(c, sym=True), vary(c, sym=False), vary(c, sym=True), vary(c, sym=True, shape=need + 2),
+                     vary(c, sym=True), vary(c, sym=True, dtype='int32')]
+        elif which == 'spacing':
+            c = rand_table(rng, 'spacing', small=True)
+            m = c['maxd'] if c['maxd'] not in (None, 0) else 3
+            m = min(m, 12)
+            need = max(r[1] for r in c['rows']) + 1
+            c['shape'] = None
+            calls = [vary(c, maxd=m, sym=True), vary(c, maxd=m + 2, sym=True), vary(c, maxd=m, sym=True),
+                     vary(c, maxd=m, sym=False), vary(c, maxd=m, sym=True, shape=need + 1),
+                     vary(c, maxd=1, sym=True), vary(c, maxd=m, sym=True)]
+        elif which == 'cross':
+            c = rand_table(rng, 'spacing', small=True)
+            m = c['maxd'] if c['maxd'] not in (None, 0) else 3
+            m = min(m, 12)
+            c.update(form='tensor', shape=None, maxd=m, sym=True)
+            xd = c['xdtype']
+            v = {'rows4': c['rows'], 'form': 'view4', 'xdtype': xd, 'shape': None}
+            calls = [c, vary(v, kind='count', dim=None, dtype='int64'), vary(v, kind='pair', sym=True, dtype='int64'),
+                     vary(v, kind='count', dim=0, dtype='int64'), c]
+        else:
+            L = rng.randint(3, 9)
+            B = rng.randint(1, 3)
+            n = rng.choice([2, 3, 4])
+            seqs = [[rng.randrange(n) for _ in range(L)] for _ in range(B)]
+            base = {'kind': 'kmers', 'n': n, 'seqs': seqs, 'k': 2, 'scores': None,
+                    'xdt': rng.choice(['float32', 'int32', 'int64', 'float64']),
+                    'layout': rng.choice(['contig', 'permuted'])}
+            if which == 'kmers_k':
+                calls = [vary(base, k=k) for k in (1, 2, 3, 2, 1, min(L, 4), 2)]
+            elif which == 'kmers_scores':
+                s1, s2 = rand_scores(rng, B, L), rand_scores(rng, B, L)
+                calls = [base, vary(base, scores=s1), vary(base, scores=s2), base, vary(base, scores=s1),
+                         vary(base, scores=s1, k=3), vary(base, scores=s1, sdt='float64')]
+            else:
+                n2 = n + 1 if n < 4 else n - 1
+                other = vary(base, n=n2, seqs=[[c % n2 for c in s] for s in seqs])
+                more = vary(base, seqs=seqs + [seqs[0][::-1]])
+                calls = [base, other, base, vary(other, k=3), vary(base, k=3), more, base]
+        yield {'kind': 'seq', 'calls': calls}
+
+
+def generate(tier, rng):
+    for inp in boundary_tables():
+        yield inp
+    for inp in gen_seqs(tier, rng):
+        yield inp
+    for inp in gen_tables(tier, rng):
+        yield inp
+    for inp in gen_kmers(tier, rng):
+        yield inp
 
 
 def search(rng, disagreeing):
@@ -499,6 +787,17 @@ def search(rng, disagreeing):
 
 
 def shrink(inp):
+    if inp['kind'] == 'seq':
+        calls = inp['calls']
+        if len(calls) == 1:
+            yield calls[0]
+            return
+        for c in calls:                       # one call alone
+            if c.get('form') != 'view4':
+                yield c
+        for i in range(len(calls)):           # drop one call
+            yield {'kind': 'seq', 'calls': calls[:i] + calls[i + 1:]}
+        return
     if inp['kind'] == 'kmers':
         seqs = inp['seqs']
         if len(seqs) > 1:
@@ -516,6 +815,8 @@ def shrink(inp):
                 if inp['scores'] is not None:
                     c['scores'] = [s[cut] for s in inp['scores']]
                 yield c
+        return
+    if inp.get('form') == 'view4':
         return
     rows = inp['rows']
     if len(rows) > 1:
